@@ -347,6 +347,13 @@ let register (reg : string -> (Sx.t list -> Sx.t) -> unit) : unit =
         let r = rd_opt rd_str reenc in
         wr_opt wr_str (Upstream.forwarded_query (fun _ -> r) (rd_opt rd_str rewritten) (rd_str orig))
       | _ -> raise (Bad "forwarded_query arity"));
+  (* symbolic model: how state nonce, OIDC nonce and verifier are wrapped in the authorization request *)
+  reg "auth_request_shape" (function
+      | [m; sn] ->
+        let m = (match rd_sym m with "none" -> Symbolic.SNone | "plain" -> Symbolic.SPlain | _ -> Symbolic.SS256) in
+        let ((a, b), c) = Symbolic.auth_request_shape m (rd_bool sn) in
+        L [wr_nat a; wr_nat b; wr_nat c]
+      | _ -> raise (Bad "auth_request_shape arity"));
   (* ---- Proxy ---- *)
   reg "proxy_serve" (function
       | [ep; skipb; fjson; bypass; domains; groups; bearer; basic; stored; ajax; api; vg; clearfails] ->
